@@ -50,6 +50,18 @@ class SeqLog(object):
         return [e[2] for e in self.events if e[0] == 'w']
 
 
+class LenLog(SeqLog):
+    """A log that also is a container (an in-memory transcript with len(), a list or deque subclass with write/flush):
+    empty, it is falsy -- and still the log."""
+
+    def __len__(self):
+        return len(self.events)
+
+
+def make_log(scn, ctr, name):
+    return (LenLog if scn.get('log_kind') == 'len' else SeqLog)(ctr, name)
+
+
 _POOLS = {}
 
 
@@ -179,6 +191,8 @@ def generate(rng, prop='C08'):
                 op['op'] = 'adrain'
                 op['to'] = rng.choice([0, 0, 0.001, 0.01, 0.02])
     scn['ops'] = ops
+    if rng.random() < 0.25:
+        scn['log_kind'] = 'len'
     if tr == 'pty' and not scn.get('short_writes') and rng.random() < 0.1:
         # an exception from outside (a raising signal handler, Ctrl-C) abandons a send in its delaybeforesend pause; the
         # application sends again afterwards
@@ -263,7 +277,7 @@ def run(scn, prop=None):
         logs = {}
         periods = {}                # name -> [[log object, first event index, end event index or None], ...]
         for name in scn.get('logs', []):
-            logs[name] = SeqLog(ctr, name)
+            logs[name] = make_log(scn, ctr, name)
             setattr(child, name, logs[name])
             periods[name] = [[logs[name], 0, None]]
         st = child.string_type
@@ -336,7 +350,7 @@ def run(scn, prop=None):
                         periods[name][-1][2] = len(events)
                     tap = aio.get('tap') if name == 'logfile_read' else None
                     if op['to'] == 'new':
-                        lg = SeqLog(ctr, name)
+                        lg = make_log(scn, ctr, name)
                         setattr(child, name, harness.TapLog(lg, tap) if tap else lg)
                         periods.setdefault(name, []).append([lg, len(events), None])
                     else:
